@@ -23,4 +23,8 @@ TEXT = {
     level='Proved from the real source, for every length / key set: _tuple_to_dict and _dict_to_tuple are inverse and _dict_to_tuple reads entries by key str(i) (never by order); _list_state_dict/_restore_list, _dict_state_dict/_restore_dict, _namedtuple_state_dict/_restore_namedtuple store and restore each entry under its key / field name with the recursive calls as uninterpreted functions, and raise ValueError exactly on a length mismatch, a missing target key, or differing namedtuple field names (iff contracts).',
     note='Trusted: VC generator semantics; recursive to/from_state_dict as uninterpreted functions; str(int) injective; summaries of dict comprehension order and namedtuple construction; solvers. Not decided: byte-level array encoding, dtype/layout, msgpack ext types. Native evaluation of the same contracts on small inputs is bounded, not proof.',
     technique='contract-based deductive verification (own VC generator over the real AST + z3/cvc5)'),
+  'C17': dict(
+    level='Proved as term equalities over uninterpreted optax: TrainState.apply_gradients (both the plain and the OVERWRITE_WITH_GRADIENT branch), nnx.TrainState.apply_gradients and nnx.Optimizer.update call tx.update with exactly (grads, opt_state, params[, **kwargs]) followed by optax.apply_updates on the same params, increment step by one, change nothing else (replace semantics / heap frame: Optimizer.update writes only step.value and performs exactly one nnx.update and one _update_opt_state with those terms); create initialises step and tx.init(params). Metrics: Average/Welford update, reset, compute proved against moment arithmetic over the reals, plus the lemma that one Welford update ADDS the batch moments to the running totals (hence independence of batching). A bounded stand-in runs the real metrics on float32 streams under several partitions.',
+    note='Trusted: VC generator semantics; optax, nnx.state/update as uninterpreted; dataclass replace summary; floats as reals and int32 as integers (machine arithmetic treated as mathematical -- only the bounded stand-in sees rounding/overflow); solvers.',
+    technique='contract-based deductive verification (own VC generator over the real AST + z3/cvc5); bounded native stand-in for float32 behaviour'),
 }
